@@ -417,6 +417,23 @@ fn run_p(t: &[&str]) -> Option<(String, Vec<String>)> {
         Ok(h) => format!("ok {} rest={} {}", fmt_header(h), left / 4, roundtrip(h, &mut oracle)),
         Err(e) => fmt_err(e),
     };
+    // parsing is a normalisation: write(parse(x)) parses to the same header again — under the options x was parsed
+    // with (same mode, same file length; the written image always carries the magic). Seed C09i.
+    if let Ok(h) = &r {
+        let mut w = Vec::new();
+        h.write(&mut w).unwrap();
+        let mut o2 = o.to_options();
+        o2.skip_magic_bytes = false;
+        match read_header(&w, &o2).0 {
+            Ok(h2) if h2 == *h => {}
+            Ok(h2) => oracle.push(format!(
+                "parse is not a normalisation under the same options: parse(x) = {} but parse(write(parse(x))) = {}",
+                fmt_header(h),
+                fmt_header(&h2)
+            )),
+            Err(e) => oracle.push(format!("write(parse(x)) does not parse under the same options: {}", fmt_err(&e))),
+        }
+    }
     // raw header over the same stream
     let skip = if o.skip_magic { 0 } else { 4.min(bytes.len()) };
     let mut c = Cursor::new(&bytes[skip..]);
